@@ -164,4 +164,11 @@ def modulePath (root file : Str) : Option Str :=
   | none => none
   | some pkg => if escapesRoot pkg then none else some (join2 pkg (base pkg ++ goSuffix))
 
+/-- `generateModule` under `--output-file FILENAME` (main.go only checks the `.go` extension):
+the single generated file goes to `filepath.Join(packageRelPath, FILENAME)`. -/
+def outputFilePath (root file ofile : Str) : Option Str :=
+  match rel root (trimSuffix file thriftSuffix) with
+  | none => none
+  | some pkg => if escapesRoot pkg then none else some (join2 pkg ofile)
+
 end ThriftVerif.Proto
